@@ -196,7 +196,7 @@ Definition is_superset (a b : smap) : M bool := is_subset b a.
 (* src/set/sub.rs: self.difference(rhs).cloned().collect() into Set<T,N>;
    runs with self = Set::new() of the left capacity. *)
 Definition clone_key (k : K) : M K :=
-  emit [EvCloneK (hd 0%N (idK E k))] ;; cbo (fun s => cloneK E s k).
+  emit (List.map EvCloneK (idK E k)) ;; cbo (fun s => cloneK E s k).
 
 Fixpoint sub_loop (a b : smap) (fuel : nat) (c : cursor) : M unit :=
   match fuel with
